@@ -54,9 +54,15 @@ def gen_cases(seed, tier):
     seeded = [c for c in pool if c.seeded]
     fits = [c for c in pool if c.name in ('cross', 'als', 'als_func')]
     out = []
+    # probes are dealt from shuffled copies of the whole pool, so that every
+    # call shape is probed (several times) in every run, not just on average
+    deck = []
     for j in range(n):
         k = int(rng.integers(10, 31))
-        picks = [pool[int(x)] for x in rng.integers(0, len(pool), size=k)]
+        while len(deck) < k:
+            deck += [int(x) for x in rng.permutation(len(pool))]
+        picks = [pool[x] for x in deck[:k]]
+        deck = deck[k:]
         # every bundle holds some seeded probes and one fitting routine
         picks[0] = seeded[j % len(seeded)]
         picks[1] = seeded[(j * 7 + 3) % len(seeded)]
